@@ -41,10 +41,10 @@ def judge(case, obs):
         return v.bucket("non-hex-refused")
     if o["exit"] != 0:
         return v.bad("C18/%s/failed" % xm["cls"], "vanity search for %s failed: %s" % (P, o["stderr"][-150:]))
-    out = o["stdout"]
-    if not out.endswith("\n") or out.count("\n") != 1:
-        return v.bad("C18/%s/output-shape" % xm["cls"], "stdout %r" % out[:100])
-    words = out[:-1].split(" ")
+    out = o["stdout"].rstrip("\r\n")
+    if "\n" in out or not out:
+        return v.bad("C18/%s/output-shape" % xm["cls"], "stdout is not one line: %r" % o["stdout"][:100])
+    words = out.split()
     try:
         ent = bip39.decode_words(words)
     except ValueError as e:
